@@ -677,10 +677,13 @@ pub fn check_references(context: &Context) -> Result<u32, &'static str>
         info!("[ref: 15] Found {} file(s)", finder.code_files.len());
 
         let missing_reference_count =
-            process_references::<CountMissingReferenceIdProcessor, u32, u32, u32>(
+            match process_references::<CountMissingReferenceIdProcessor, u32, u32, u32>(
                 context, None, &finder,
             )
-            .map_or(0, |id| id);
+            {
+                Some(count) => count,
+                None => return Err("The check did not complete"),
+            };
 
         if missing_reference_count > 0
         {
